@@ -25,6 +25,9 @@ def opsTm : List (String × Rd (List String)) := [
   ("tm.estld", do let v ← bits 80; let r ← bits 80; pure [b01 (finiteEst finite80 v r)]),
   -- the same predicates on literals written at the call site: the line carries the index of the literal (used by the
   -- harness) and its bit pattern (used here)
+  ("tm.cvecf", do let l ← listOf 4 (bits 32); pure [b01 (finiteAll finite32 l)]),
+  ("tm.cvecld", do let l ← listOf 4 (bits 80); pure [b01 (finiteAll finite80 l)]),
+  ("tm.cstokes", do let l ← listOf 8 (bits 64); pure [b01 (finiteAll finite64 l)]),
   ("tm.stokes", do let l ← listOf 4 (bits 64); pure [b01 (finiteAll finite64 l)]),
   ("tm.stokesf", do let l ← listOf 4 (bits 32); pure [b01 (finiteAll finite32 l)]),
   ("tm.mat23", do let l ← listOf 6 (bits 64); pure [b01 (finiteAll finite64 l)]),
